@@ -1,23 +1,91 @@
-(* C19, printf part.  (interim version: the former _refuted witnesses of D24-D30, D34 conform
-   after the fix: commits; the general theorems replace this file) *)
+(* C19, printf part: printf_format + do_printf_* produce byte for byte what ISO C prescribes.
+
+   FULL STATEMENT (DESIGN Appendix A):
+     Theorem C19_printf_conforms :
+       forall (d : directive) (v : argval), in_grammar d = true -> fits d v = true ->
+         frigg_printf d v = Ok (iso_printf d v).
+   with in_grammar = %[n$][-+ #0']*[width|*][.prec|.*][hh|h|l|ll|z|t|j]{d,i,u,o,x,X},
+   %[n$][-][width|*][.prec|.*]{c,s}, %p, %%  (IsoPrintf.in_grammar), frigg_printf = the model of
+   printf_format/do_printf_*/print_int run on the rendering of d with the arguments of v.
+
+   PROVED: C19_printf_conforms_partial = the full statement for every directive WITHOUT the n$ prefix
+   (d_pos d = None): every flag list (any subset, order, repetition), every literal width 1..INT_MAX and
+   precision 0..INT_MAX, '*' and '.*' with every int (negative included, INT_MIN width excluded by fits),
+   every length modifier, every value of the promoted argument type.  After the fix: commits of
+   D24-D30 and D40 no class of deviations is left among these directives (the first version of this
+   file carried one _refuted witness per class; see comp/printf/NOTES.md).
+   MISSING for the full statement: directives with n$ (positional).  For a single positional directive
+   the model is exercised by the check only; for formats with several positional directives the
+   statement is FALSE when arguments of different types are skipped over (D33, known, not repaired):
+   C19_printf_positional_refuted_D33 below. *)
 From Coq Require Import String.
 From Coq Require Import NArith ZArith List Bool.
-From FV Require Import Printf.PrintIntModel Printf.PrintfModel Printf.IsoPrintf Printf.PrintfConform.
+From FV Require Import Printf.PrintIntModel Printf.PrintfModel Printf.IsoPrintf Printf.PrintfConform
+  Printf.PrintIntProofs Printf.PrintfConformProofs.
 Import ListNotations.
 Local Open Scope Z_scope.
 
-Definition av (x : Z) := mk_av 0 0 x [].
-Definition conforms (d : directive) (v : argval) : Prop :=
-  in_grammar d = true /\ fits d v = true /\ frigg_printf d v = Ok (iso_printf d v).
+Theorem C19_printf_conforms_partial :
+  forall (d : directive) (v : argval),
+    d_pos d = None -> in_grammar d = true -> fits d v = true ->
+    frigg_printf d v = Ok (iso_printf d v).
+Proof. exact printf_conforms_nopos. Qed.
+Print Assumptions C19_printf_conforms_partial.
 
-Theorem C19_printf_conforms_corpus :
-  conforms (mk_dir None [] (WLit 5) PNone LNone Cd) (av (-12)) /\
-  conforms (mk_dir None [FZero] (WLit 5) PNone LNone Cd) (av (-12)) /\
-  conforms (mk_dir None [FMinus; FZero] (WLit 5) PNone LNone Cd) (av 12) /\
-  conforms (mk_dir None [FHash] (WLit 6) PNone LNone Cx) (av 12) /\
-  conforms (mk_dir None [] (WLit 5) (PLit 0) LNone Cd) (av 0) /\
-  conforms (mk_dir None [FPlus] WNone PNone LNone Cu) (av 12) /\
-  conforms (mk_dir None [] WStar PNone LNone Cd) (mk_av (-5) 0 12 []) /\
-  conforms (mk_dir None [FQuote] WNone PNone LNone Cd) (av 1234567).
-Proof. repeat split; vm_compute; reflexivity. Qed.
-Print Assumptions C19_printf_conforms_corpus.
+(* non-vacuity: the former witnesses of D24-D30 and D40 meet the hypotheses, and the outputs are
+   the padded / signed / prefixed ones *)
+Example C19_printf_conforms_examples :
+  let ok d v := (d_pos d = None /\ in_grammar d = true /\ fits d v = true) in
+  ok (mk_dir None [FZero] (WLit 5) PNone LNone Cd) (mk_av 0 0 (-12) [])
+  /\ iso_printf (mk_dir None [FZero] (WLit 5) PNone LNone Cd) (mk_av 0 0 (-12) []) = [45; 48; 48; 49; 50]%N       (* "-0012" *)
+  /\ ok (mk_dir None [FHash; FMinus] WStar PStar Lll CX) (mk_av (-9) 4 255 [])
+  /\ iso_printf (mk_dir None [FHash; FMinus] WStar PStar Lll CX) (mk_av (-9) 4 255 [])
+     = [48; 88; 48; 48; 70; 70; 32; 32; 32]%N                                                                     (* "0X00FF   " *)
+  /\ ok (mk_dir None [FMinus] (WLit 6) (PLit 2) LNone Cs) (mk_av 0 0 0 [104; 105; 33; 0]%N)
+  /\ iso_printf (mk_dir None [FMinus] (WLit 6) (PLit 2) LNone Cs) (mk_av 0 0 0 [104; 105; 33; 0]%N)
+     = [104; 105; 32; 32; 32; 32]%N.                                                                              (* "hi    " *)
+Proof. repeat split; reflexivity. Qed.
+
+(* D33 (known): "%2$d %1$ld" with (long 6000000000, int 7): ISO/POSIX print "7 6000000000"; frigg fetches
+   the first argument with the type of the directive that skips over it (int) *)
+Theorem C19_printf_positional_refuted_D33 :
+  let fmt := [37; 50; 36; 100; 32; 37; 49; 36; 108; 100]%N in
+  let r := run_printf [] fmt [slot64 6000000000; slot32 7] cache_init in
+  snd r = Ok tt
+  /\ ps_out (fst r) <> iso_printf (mk_dir (Some 2%N) [] WNone PNone LNone Cd) (mk_av 0 0 7 []) ++ [32%N]
+                       ++ iso_printf (mk_dir (Some 1%N) [] WNone PNone Ll Cd) (mk_av 0 0 6000000000 []).
+Proof. split; [reflexivity | vm_compute; discriminate]. Qed.
+Print Assumptions C19_printf_positional_refuted_D33.
+
+(* print_digits emits the positional representation: for every value below 2^64 and radix 2, 8, 10, 16
+   it returns Ok (so FRG_ASSERT(k < 64) does not fire) the digit string [digits], which has at most 64
+   digits, no leading zero, and whose value in that radix is the number *)
+Theorem C19_digits :
+  forall (v radix : N) (caps : bool),
+    (v < 2 ^ 64)%N -> (radix = 2 \/ radix = 8 \/ radix = 10 \/ radix = 16)%N ->
+    print_digits v false radix 0 1 32%N false false false false caps default_locale [] = Ok (digits radix caps v)
+    /\ digits_value radix (digits radix caps v) = v
+    /\ (length (digits radix caps v) <= 64)%nat
+    /\ (v <> 0%N -> exists c r, digits radix caps v = c :: r /\ c <> 48%N)
+    /\ (v = 0%N -> digits radix caps v = [48%N]).
+Proof. exact digits_theorem. Qed.
+Print Assumptions C19_digits.
+
+Example C19_digits_example :
+  print_digits 18446744073709551615 false 2 0 1 32%N false false false false false default_locale []
+  = Ok (repeat 49%N 64)                                      (* 64 ones: the buffer is used up to its last slot *)
+  /\ digits 16 true 48879 = [66; 69; 69; 70]%N.             (* "BEEF" *)
+Proof. split; vm_compute; reflexivity. Qed.
+
+(* print_int of the minimum of every signed type prints its magnitude (the ~x + 1 trick) *)
+Theorem C19_print_int_min :
+  forall (tbits radix : N), (tbits = 32 \/ tbits = 64)%N -> (radix = 2 \/ radix = 8 \/ radix = 10 \/ radix = 16)%N ->
+    print_int tbits (- 2 ^ (Z.of_N tbits - 1)) radix 0 1 32%N false false false false false default_locale []
+    = Ok (45%N :: digits radix false (2 ^ (tbits - 1))).
+Proof. exact print_int_min_theorem. Qed.
+Print Assumptions C19_print_int_min.
+
+Example C19_print_int_min_example :
+  print_int 32 (-2147483648) 10 0 1 32%N false false false false false default_locale []
+  = Ok [45; 50; 49; 52; 55; 52; 56; 51; 54; 52; 56]%N.             (* "-2147483648" *)
+Proof. vm_compute. reflexivity. Qed.
